@@ -175,3 +175,64 @@ func (o *Once) Do(f func()) {
 		f()
 	}
 }
+
+// ---------------------------------------------------------------------------------
+// The rest of package sync is passed through unchanged, so that any knut source that
+// compiles against the real package also compiles against this one. These types carry
+// no scheduling points: a goroutine blocked inside one of them is invisible to vsched
+// (Cond.Wait would be reported as a deadlock of the remaining goroutines).
+
+type (
+	Pool = sync.Pool
+	Map  = sync.Map
+	Cond = sync.Cond
+)
+
+func NewCond(l Locker) *Cond { return sync.NewCond(l) }
+
+func OnceFunc(f func()) func() { return sync.OnceFunc(f) }
+
+func OnceValue[T any](f func() T) func() T { return sync.OnceValue(f) }
+
+func OnceValues[T1, T2 any](f func() (T1, T2)) func() (T1, T2) { return sync.OnceValues(f) }
+
+func (m *RWMutex) TryLock() bool {
+	if !vsched.Active() {
+		return m.n.TryLock()
+	}
+	vsched.Yield()
+	if m.writer || m.readers > 0 {
+		return false
+	}
+	m.writer = true
+	return true
+}
+
+func (m *RWMutex) TryRLock() bool {
+	if !vsched.Active() {
+		return m.n.TryRLock()
+	}
+	vsched.Yield()
+	if m.writer {
+		return false
+	}
+	m.readers++
+	return true
+}
+
+type rlocker RWMutex
+
+func (r *rlocker) Lock()   { (*RWMutex)(r).RLock() }
+func (r *rlocker) Unlock() { (*RWMutex)(r).RUnlock() }
+
+// RLocker returns a Locker whose Lock/Unlock call RLock/RUnlock.
+func (m *RWMutex) RLocker() Locker { return (*rlocker)(m) }
+
+// Go is WaitGroup.Go of newer Go versions (not in go1.23's sync; harmless extra).
+func (wg *WaitGroup) Go(f func()) {
+	wg.Add(1)
+	vsched.Go(func() {
+		defer wg.Done()
+		f()
+	})
+}
